@@ -302,6 +302,9 @@ class ProcTable:
                     return None
                 if isinstance(r, int):
                     raise oserr(r)
+                if isinstance(r, tuple) and r[0] == "read_err":
+                    # opens fine, fails at read time (the target called exec() or exited in between)
+                    return F(b"", lambda: gone() or oserr(r[1]))
                 return F(lambda: p.smaps_rollup, gone)
             if name in ("exe", "cwd"):
                 t = getattr(p, name)
